@@ -57,6 +57,7 @@ type FuncSpec struct {
 	Fresh     []string
 	Verify    bool // for trusted/external-with-body: no
 	IsIface   bool
+	Assumes   []*Clause // trusted postconditions: assumed by callers, not proved for the body (listed as assumptions)
 	Conforms  string // key of the interface-method contract this method must satisfy
 	Content   bool   // generate quantified content facts for append/copy
 	Ownership bool   // enable byte-array ownership ghost state
@@ -270,6 +271,16 @@ func (sp *Specs) LoadSpecFile(path string) error {
 			} else {
 				cur.Ensures = append(cur.Ensures, c)
 			}
+			lastExpr = &c.Expr
+		case "assume":
+			if cur == nil {
+				return fmt.Errorf("%s:%d: assume outside func", path, ln)
+			}
+			c, err := parseClause("assume", rest, path, ln)
+			if err != nil {
+				return err
+			}
+			cur.Assumes = append(cur.Assumes, c)
 			lastExpr = &c.Expr
 		case "modifies":
 			cur.HasMod = true
